@@ -1,4 +1,4 @@
 #!/bin/bash
 # tools/seedround5.sh <PROP>: copy fifth-round seeds /tmp/seed5_<PROP>/out/{1,2} to seeded/<PROP>-{9,10} and run the check against them
 P=$1
-for k in 1 2; do n=$P-$((k+8)); d=/verif/seeded/$n; mkdir -p $d; cp /tmp/seed5_$P/out/$k/{patch.diff,demo.py,notes.md} $d/ 2>/dev/null; echo "=== $n"; /verif/tools/seedcheck.sh $P $d 2>&1 | grep -E "RESULT|VIOLATION|HARNESS|INCONCL" | head -5 | cut -c1-230; done
+for k in 1 2; do n=$P-$((k+8)); d=/verif/seeded/$n; mkdir -p $d; cp /tmp/seed5_$P/out/$k/{patch.diff,demo.py,notes.md} $d/ 2>/dev/null; echo "=== $n"; /verif/tools/seedcheck.sh $P $d 2>&1 | grep -E "RESULT|VIOLATION|HARNESS|INCONCL" | awk '/RESULT/{print;next} n<5{print;n++}' | cut -c1-230; done
